@@ -6,8 +6,25 @@ import vlib
 GEN_FILE = "C20_bench_gen.v"
 
 
+class RegenResult(object):
+    """unpacks as (ok, message, meta); prints as the message (harness/setup.py formats it with %s)"""
+
+    def __init__(self, ok, msg, meta):
+        self.t = (ok, msg, meta)
+
+    def __iter__(self):
+        return iter(self.t)
+
+    def __str__(self):
+        return "%s: %s" % ("ok" if self.t[0] else "FAILED", self.t[1])
+
+
 def regen(repo=None):
     """Tie (T): regenerate coq/Gen/C20_bench_gen.v from the working tree.  Returns (ok, message, meta)."""
+    return RegenResult(*_regen(repo))
+
+
+def _regen(repo=None):
     import c20_py2coq
     repo = repo or vlib.REPO
     try:
